@@ -5,9 +5,10 @@ C06 round 3: histories of ONE parameter object, array identity, and the rate-der
 correspondence family (model vs real code):
   * array identity (`A` lines of Drivers/C06.lean, Model/TimePar.lean `Store`/`ARef`/`AOp`): for array-valued parameters of every class
     a history of init / set(parent_dt) / update_cached / set(v=array) / to()+adopt / to_parent()+adopt / x*c+adopt is executed on the
-    real object; after every call WHICH ndarray objects `v` and `values` are (canonically renumbered: same object / shared memory =
-    same number, first appearance order) and their contents are compared with the model, and every array that existed before the
-    call must still hold the numbers it held (the model's store is append-only: Props/C06 `C06_buffers_never_overwritten`).
+    real object; after every call WHICH ndarray objects `v` and `values` are (same object / shared memory = same number) and their
+    contents are compared with the model: the implementation may copy more than the model, but two references the model keeps apart
+    must not be one array in the implementation; and every array that existed before the call must still hold the numbers it held
+    (the model's store is append-only: Props/C06 `C06_buffers_never_overwritten`).
 oracles (real code only):
   * history: a physical quantity followed through a history of link / re-link / convert / scale calls on the real object:
       - linking to a parent (init, set(parent_dt/parent_unit), update_cached) never changes the quantity in its own unit (`v`);
@@ -355,6 +356,18 @@ def canon_ids(pairs):
     return out
 
 
+def extra_sharing(model, impl):
+    """ every sharing of the implementation must be a sharing of the model (copying MORE than the model is not a difference that matters;
+        re-using an array the model allocates afresh is) -> None or text """
+    names = [f'{w} after call {k}' for k in range(len(model)) for w in ('v', 'values')]
+    m = [i for p in model for i in p]; q = [i for p in impl for i in p]
+    for a in range(len(m)):
+        for b in range(a + 1, len(m)):
+            if q[a] is not None and q[a] == q[b] and m[a] != m[b]:
+                return f'`{names[a]}` and `{names[b]}`'
+    return None
+
+
 def corr_identity(ctx, c06):
     rng = ctx.rng
     cases = [fixed_identity_case(rng, k) for k in KINDS] + [gen_identity_case(rng, rng.choice(KINDS)) for _ in range(ctx.budget(40, 400))]
@@ -384,8 +397,10 @@ def corr_identity(ctx, c06):
             if s['overwritten']:
                 b, was, now = s['overwritten']
                 why = (k, f'array #{b} of the history (numbered by first appearance as `v`/`values`) held {was} and now holds {now}: an existing array was overwritten'); break
-            if canon_ids(mids) != canon_ids([t['ids'] for t in steps[:k + 1]]):
-                why = (k, f"which arrays `v` and `values` are: model {canon_ids(mids)} impl {canon_ids([t['ids'] for t in steps[:k + 1]])} (same number = same ndarray object)"); break
+            extra = extra_sharing(mids, [t['ids'] for t in steps[:k + 1]])
+            if extra:
+                why = (k, f"the implementation uses ONE ndarray object where the model allocates two: {extra}; `v`/`values` by call: model {canon_ids(mids)} impl {canon_ids([t['ids'] for t in steps[:k + 1]])} "
+                          "(same number = same ndarray object / shared memory)"); break
             if not c06.cmp_val(c06.val_from_tok(mv), s['v'], 16 * U, 4e-15 if prob else 0.0):
                 why = (k, f"v: model={c06.show(c06.val_from_tok(mv))} impl={c06.show(s['v'])}"); break
             if not c06.cmp_val(c06.val_from_tok(mvals), s['values'], 16 * U, 4e-15 if prob else 0.0):
